@@ -284,7 +284,8 @@ func (h *headerField) valid() bool {
 		}
 		return true
 	}
-	return false
+	// Fields with a tag this reader does not know are carried along and otherwise ignored, as MIT krb5 does.
+	return true
 }
 
 func readData(b []byte, p *int, e *binary.ByteOrder) []byte {
